@@ -71,6 +71,10 @@ func (f *VFile) ReadAt(p []byte, off int64) (int, error) {
 	return n, nil
 }
 func (f *VFile) WriteAt(p []byte, off int64) (int, error) {
+	if f.sto != nil && f.sto.OnWrite != nil {
+		f.sto.OnWrite(false)
+		defer f.sto.OnWrite(true)
+	}
 	f.mu.Lock()
 	defer f.mu.Unlock()
 	if off+int64(len(p)) > int64(len(f.B)) {
@@ -99,6 +103,7 @@ type VStorage struct {
 	FailNext bool // the next WriteAt fails (once), like a full or failing disk
 	Opens    int
 	Closes   int
+	OnWrite  func(exit bool) // called at the entry and at the exit of every WriteAt, outside the lock
 }
 
 func NewVStorage() *VStorage { return &VStorage{Files: map[string]*VFile{}} }
@@ -386,6 +391,59 @@ func NewVLoop(o VLoopOpts) (*VLoop, error) {
 	}
 	v.Tor = tor
 	v.T = tor.torrent
+	v.hijack()
+	ln, err := net.Listen("tcp", "127.0.0.1:0")
+	if err != nil {
+		v.Close()
+		return nil, err
+	}
+	v.ln = ln
+	return v, nil
+}
+
+// DBPath is the session's resume database file.
+func (v *VLoop) DBPath() string { return v.dir + "/session.db" }
+
+// OpenVLoop starts a new session on a copy of a resume database and a storage image (a restart
+// after a crash); the torrent found there is wrapped, not started.
+func OpenVLoop(db []byte, sto *VStorage, tune func(*Config)) (*VLoop, error) {
+	dir, err := os.MkdirTemp("/verif/.work", "vloop")
+	if err != nil {
+		return nil, err
+	}
+	if err := os.WriteFile(dir+"/session.db", db, 0o600); err != nil {
+		os.RemoveAll(dir)
+		return nil, err
+	}
+	cfg := DefaultConfig
+	cfg.Database = dir + "/session.db"
+	cfg.DataDir = dir + "/data"
+	cfg.DataDirIncludesTorrentID = true
+	cfg.DHTEnabled = false
+	cfg.RPCEnabled = false
+	cfg.ResumeOnStartup = false
+	cfg.HealthCheckInterval = time.Hour
+	cfg.ResumeWriteInterval = time.Hour
+	cfg.PortBegin = 21000
+	cfg.PortEnd = 29000
+	cfg.Host = "127.0.0.1"
+	cfg.TrackerStopTimeout = time.Second
+	cfg.CustomStorage = vProvider{sto}
+	if tune != nil {
+		tune(&cfg)
+	}
+	s, err := NewSession(cfg)
+	if err != nil {
+		os.RemoveAll(dir)
+		return nil, err
+	}
+	ts := s.ListTorrents()
+	if len(ts) != 1 {
+		s.Close()
+		os.RemoveAll(dir)
+		return nil, fmt.Errorf("expected one torrent in the resume database, found %d", len(ts))
+	}
+	v := &VLoop{S: s, Sto: sto, dir: dir, Tor: ts[0], T: ts[0].torrent}
 	v.hijack()
 	ln, err := net.Listen("tcp", "127.0.0.1:0")
 	if err != nil {
@@ -740,6 +798,9 @@ func (v *VLoop) Start() { v.guard(func() { v.T.start() }) }
 
 // Stop issues the stop command.
 func (v *VLoop) Stop() { v.guard(func() { v.T.stop(nil) }) }
+
+// PersistNow runs the periodic resume write of the session (the ResumeWriteInterval ticker).
+func (v *VLoop) PersistNow() { v.S.updateStats() }
 
 // Verify issues the verify command.
 func (v *VLoop) Verify() { v.guard(func() { v.T.handleVerifyCommand() }) }
